@@ -74,6 +74,14 @@ def oracle(case: dict):
     txt2 = dictIO.FoamFormatter().to_string(s)
     if not txt2.startswith(BANNER) or "\nFoamFile\n{\n" not in txt2:
         return ("banner", f"SDict output does not start with the OpenFOAM banner and FoamFile block: {txt2[:120]!r}")
+    # ... also when the SDict carries a FoamFile entry of its own (what a read .foam file returns), wherever it sits
+    own = dictIO.SDict({**copy.deepcopy(d), "FoamFile": {"version": 2.0, "format": "ascii", "class": "dictionary", "object": "foamDict"}})
+    if case.get("own_first"):
+        own = dictIO.SDict({"FoamFile": own["FoamFile"], **copy.deepcopy(d)})
+    txt3 = dictIO.FoamFormatter().to_string(own)
+    after_banner = txt3.split("*/\n", 1)[1] if "*/\n" in txt3 else txt3
+    if not txt3.startswith(BANNER) or not after_banner.startswith("FoamFile\n{\n"):
+        return ("banner", f"an SDict with a FoamFile entry of its own is not written with banner + FoamFile block first: after the banner comes {after_banner[:80]!r}")
     if not gen.typed_eq(gen.plain(dict(s)), before):
         return ("input-modified", "FoamFormatter.to_string modified the SDict passed in")
     tmp = native.scratch_dir("c10_")
